@@ -404,6 +404,79 @@ fn walks_with_vanishing_dirs(
     runs
 }
 
+/// Hostile directory contents (symlinks of every kind, created behind the backend's back): the
+/// physical backends of both worlds must answer every call with the same outcome class.
+fn hostile_disk_pairs(vio: &mut Vec<Violation>) -> u64 {
+    let kinds = ["dangling-symlink", "symlink-loop", "symlink-to-dir", "symlink-to-file"];
+    let calls = ["create_dir", "create_dir_all", "create_file", "append_file", "exists", "metadata", "is_dir", "read_dir", "open_file", "remove_file", "remove_dir", "read_dir(parent)", "walk_dir(parent)"];
+    let targets = ["the entry", "a child below it"];
+    fn plant(root: &std::path::Path, kind: &str) {
+        let p = root.join("p");
+        std::fs::create_dir_all(&p).unwrap();
+        std::fs::create_dir_all(root.join("realdir/sub")).unwrap();
+        std::fs::write(root.join("realfile"), b"real").unwrap();
+        std::fs::write(p.join("plain"), b"plain").unwrap();
+        let link = p.join("link");
+        let to: std::path::PathBuf = match kind {
+            "dangling-symlink" => root.join("nowhere"),
+            "symlink-loop" => link.clone(),
+            "symlink-to-dir" => root.join("realdir"),
+            _ => root.join("realfile"),
+        };
+        std::os::unix::fs::symlink(to, &link).unwrap();
+    }
+    fn run<P: PathApi>(root: &P, call: &str, target: &str) -> String {
+        let path = if target == "the entry" { "p/link" } else { "p/link/child" };
+        let r = guard(|| -> R<String> {
+            let x = root.join(path)?;
+            let parent = root.join("p")?;
+            Ok(match call {
+                "create_dir" => x.create_dir().map(|_| "unit".to_string())?,
+                "create_dir_all" => x.create_dir_all().map(|_| "unit".to_string())?,
+                "create_file" => x.write_file(b"w").map(|_| "unit".to_string())?,
+                "append_file" => x.append(b"w").map(|_| "unit".to_string())?,
+                "exists" => format!("{}", x.exists()?),
+                "metadata" => format!("{:?}", x.metadata().map(|m| (m.ftype, m.len))?),
+                "is_dir" => format!("{}", x.is_dir()?),
+                "read_dir" => format!("{:?}", { let mut l: Vec<String> = x.read_dir()?.iter().map(|c| c.as_string()).collect(); l.sort(); l }),
+                "open_file" => format!("{:?}", x.read_all()?),
+                "remove_file" => x.remove_file().map(|_| "unit".to_string())?,
+                "remove_dir" => x.remove_dir().map(|_| "unit".to_string())?,
+                "read_dir(parent)" => format!("{:?}", { let mut l: Vec<String> = parent.read_dir()?.iter().map(|c| c.as_string()).collect(); l.sort(); l }),
+                _ => format!("{:?}", { let mut l: Vec<String> = parent.walk()?.into_iter().map(|i| i.map(|c| c.as_string()).unwrap_or_else(|e| format!("ERR({})", e.kind.name()))).collect(); l.sort(); l }),
+            })
+        });
+        match r {
+            Ok(Ok(v)) => format!("Ok({})", v),
+            Ok(Err(e)) => format!("Err({})", e.kind.name()),
+            Err(m) => format!("Panic({})", m),
+        }
+    }
+    let mut n = 0u64;
+    for kind in kinds {
+        for call in calls {
+            for target in targets {
+                let sb = build(&Cfg::Phys, Order::Asc, &vec![]);
+                let ab = abuild(&Cfg::Phys, Order::Asc, &[]);
+                plant(&sb.phys_outer_dirs()[0].join("root"), kind);
+                plant(&ab.phys_outer_dirs()[0].join("root"), kind);
+                let s = run(&sb.root, call, target);
+                let a = run(&ABlock(ab.root.clone()), call, target);
+                n += 1;
+                if s != a {
+                    vio.push(Violation {
+                        property: "C15".into(),
+                        signature: format!("sync~async Phys|hostile-disk|{}|{}|{}|sync={}|async={}", kind, call, target, s.split('(').next().unwrap_or(""), a.split('(').next().unwrap_or("")),
+                        summary: format!("a {} in a directory of the physical backend, {} on {}: sync {}, async {}", kind, call, target, s, a),
+                        replay: json!({"engine": "hostile-disk-pair", "content": kind, "call": call, "target": target}),
+                    });
+                }
+            }
+        }
+    }
+    n
+}
+
 /// Write sessions observed while the handle is still open: after opening it, after a write,
 /// after a flush and after the drop the sync and the async world must show the same length and
 /// bytes to a fresh reader.
@@ -622,6 +695,26 @@ pub fn run_c15(ctx: &Ctx) -> i32 {
             vec![],
             "",
         ),
+        // a path that is a file in the middle layer and a directory with children in the bottom
+        // layer (the file is served; after remove_file + create_dir the lower directory merges in)
+        port_pair(
+            Cfg::Ov(vec![Cfg::Mem, Cfg::Mem, Cfg::Mem]),
+            Order::Asc,
+            alphabet(u3(), &[b"x"], 1, true),
+            vec![
+                (1, vec![("/a".to_string(), Node::File(b"l".to_vec()))]),
+                (2, vec![("/a".to_string(), Node::Dir), ("/a/a".to_string(), Node::File(b"mm".to_vec())), ("/b".to_string(), Node::Dir)]),
+            ],
+            " file over directory",
+        ),
+        // layers that are directories of one filesystem
+        port_pair(
+            Cfg::OvShared(Box::new(Cfg::Mem), vec!["/upper".to_string(), "/lower/x".to_string()]),
+            Order::Asc,
+            alphabet(u3(), &[b"x"], 1, true),
+            vec![(1, vec![("/a".to_string(), Node::Dir), ("/a/a".to_string(), Node::File(b"l".to_vec()))])],
+            " shared filesystem",
+        ),
     ];
     if thorough {
         spaces.push(port_pair(
@@ -740,6 +833,17 @@ pub fn run_c15(ctx: &Ctx) -> i32 {
     let vr2 = walks_with_vanishing_dirs(&Cfg::alt(Cfg::Mem, "/Z"), &small, 0, false, &mut vio);
     let vr3 = walks_with_vanishing_dirs(&ov, &small, 1, thorough, &mut vio);
     quiet.say(&format!("  [walks with a directory vanishing at every walker position, sync vs async (+1 Pending at every await point)] runs={}", vr1 + vr2 + vr3));
+    // (g) symlinks of every kind on disk: same outcome classes from both physical backends
+    let hd = hostile_disk_pairs(&mut vio);
+    quiet.say(&format!("  [symlinks on disk x 13 calls x 2 targets, sync vs async physical backend] runs={} violations so far={}", hd, vio.len()));
+    // (f) a read and a write handle on one file, opened / used / dropped / re-opened in every order
+    // while the file is removed and re-created: same final state in both worlds
+    let mut hi_panics = vec![];
+    let mut hi_diffs = vec![];
+    let mut hi_classes = std::collections::BTreeMap::new();
+    let hi = super::panicprops::handle_interplay(3, &mut hi_panics, &mut hi_diffs, &mut hi_classes);
+    quiet.say(&format!("  [reader + writer scripts with removals, final state sync vs async] scripts={} differences={}", hi, hi_diffs.len()));
+    vio.extend(crate::handle::dedupe(hi_diffs));
     // (e) write sessions observed while the handle is open
     let mut sr = 0;
     for (cfg, base) in [
